@@ -157,7 +157,11 @@ def main(chk, replay=None):
         protos = t["protos"]
     # 3. the real server on real trees
     jobs = [(c, mode, protos) for c, mode in cases]
-    results = dl.pool_map(_job, jobs, _init_worker)
+    dl.new_root_base()
+    try:
+        results = dl.pool_map(_job, jobs, _init_worker)
+    finally:
+        dl.drop_root_base()
     traces = []
     for (c, mode, _), outs in zip(jobs, results):
         comp = dl.kids_compact(c)
